@@ -18,10 +18,10 @@ import (
 
 const upgradeFinding = "C15-upgraded-connections-are-not-cut"
 
-// TestKnownUpgradedConnectionNotCut: witness of the open finding C15-upgraded-connections-are-not-cut. An upgraded
-// (hijacked) connection - exec / attach / port-forward - that is being proxied to a cluster stays open when the cluster
-// is deleted. The generated search never makes the target request an upgraded connection, so nothing else of the check
-// is relaxed for this finding.
+// TestKnownUpgradedConnectionNotCut: witness of the finding C15-upgraded-connections-are-not-cut (repaired in the
+// repository, a "fixed" entry now: nothing is suppressed, the test is a plain regression check). An upgraded (hijacked)
+// connection - exec / attach / port-forward - that is being proxied to a cluster must end when the cluster is deleted.
+// The generated search over upgraded connections is TestPropUpgradedConnectionsAreCut.
 func TestKnownUpgradedConnectionNotCut(t *testing.T) {
 	g := gwbox.NewGateway()
 	defer g.Close()
